@@ -82,7 +82,7 @@ Section Draw.
     let adv (sc : nat) := {| l_start := l_start p; l_end := l_end p; l_pos := cur + w; l_scol := sc; l_tw := l_tw p; l_tab := l_tab p |} in
     if (cur <? l_start p)%nat || (l_end p <=? cur)%nat then (adv (l_scol p), [])
     else if (cur <? l_start p + 2)%nat && (0 <? l_start p)%nat then
-      let k := Nat.min w (cur - l_start p + 1) in (adv (l_scol p + k), dots k (l_scol p) tg)
+      let k := Nat.min (Nat.min w (cur - l_start p + 1)) (l_end p - cur) in (adv (l_scol p + k), dots k (l_scol p) tg)
     else if (l_end p - cur <=? 2)%nat && (l_end p <? l_tw p)%nat then
       let k := Nat.min w (l_end p - cur) in (adv (l_scol p + k), dots k (l_scol p) tg)
     else (adv (l_scol p + w), [(l_scol p, (c, tg))]).
